@@ -1,7 +1,7 @@
 """Configuration of ./check C04 (see pylib/props.py)."""
 CFG = dict(
         coq=["props/C04.vo"],
-        tie=["gen/Tie_C04.vo"],
+        tie=["gen/Tie_C04.vo", "gen/Tie_Code_RowAddr.vo", "gen/Tie_Code_Overlap.vo"],
         model_vo=["model/Diff.vo", "model/DiffSpec.vo", "model/DiffHashed.vo"],
         extract="Ex_C04",
         level_text="C04_diff_correct: for all well-formed tables (any number of blocks, either side empty, any block size) the "
